@@ -760,6 +760,11 @@ func runSeq(fam *family, c *Case) (res *runResult, err error) {
 				case d2 == 1 && err != co.capErr:
 					bad("FlushError returned %v, the underlying FlushError returned %v", err, co.capErr)
 					return
+				case fam.fe && co.capErr != nil && err == nil:
+					// a writer that offers both forms (net/http's own do: their Flush is FlushError with the error dropped) was
+					// flushed through the error-less one
+					bad("FlushError returned nil: the underlying writer offers FlushError, which reports that flushing fails with %v, and was flushed through Flush() instead", co.capErr)
+					return
 				case d1 == 1 && err != nil:
 					bad("FlushError returned %v although the underlying Flush() cannot fail", err)
 					return
